@@ -27,7 +27,7 @@ ASSUMPTIONS = ["parsers implement the subset of each specification needed for po
 BOUNDS = {"quick": {"shapes": "S3(4) every 30th, S3(5) every 100th, 10 prisms, VOX every 8th; x 2 classes x 4 transforms x 7 formats x 2 entry points"}, "thorough": {"shapes": "S3(4) every 5th, S3(5) every 20th, all VOX"}}
 CHUNK = 4
 FORMATS = ["OBJ", "OFF", "STL", "PLY", "VTK", "X3D", "HTML"]
-TRANSFORMS = [(1.0, (0.0, 0.0, 0.0)), (1e-6, (-3e-6, 2e-6, 5e-7)), (1e6, (-2.5e6, 1.0, 3e6)), (0.37, (1e5, -1e-5, -7.25))]
+TRANSFORMS = [(1.0, (0.0, 0.0, 0.0)), (1e-6, (-3e-6, 2e-6, 5e-7)), (1e6, (-2.5e6, 1.0, 3e6)), (0.37, (1e5, -1e-5, -7.25)), (0.013, (-0.051, 0.0007, -0.0333))]
 
 
 def cases(tier):
@@ -38,15 +38,15 @@ def cases(tier):
         for i, S in enumerate(A.s3(kk)):
             if i % step == 0:
                 for cls in ("ConvexPolyhedron", "Polyhedron"):
-                    for ti in range(4):
+                    for ti in range(len(TRANSFORMS)):
                         out.append({"src": "s3", "pts": S, "cls": cls, "tr": ti})
     for n in range(3, 13):
         for cls in ("ConvexPolyhedron", "Polyhedron"):
-            for ti in ((n % 4), (n + 1) % 4):
+            for ti in ((n % 5), (n + 1) % 5, 4):
                 out.append({"src": "prism", "n": n, "cls": cls, "tr": ti})
     for i in range(len(A.vox((2, 2, 2)))):
         if i % (8 if q else 1) == 0:
-            for ti in range(4):
+            for ti in range(len(TRANSFORMS)):
                 out.append({"src": "vox", "i": i, "cls": "Polyhedron", "tr": ti})
     out.append({"src": "dispatch"})
     return out
